@@ -7,7 +7,7 @@ namespace PyDBML
 namespace C02
 open Lex Grammar Build
 
-inductive Flag where | pk | increment | unique | notNull | note (t : Str) | prop (k v : Str)
+inductive Flag where | pk | increment | unique | notNull | note (t : Str) | prop (k v : Str) | defInt (d : Str)
   deriving DecidableEq
 
 def Flag.text : Flag → Str
@@ -17,6 +17,7 @@ def Flag.text : Flag → Str
   | .notNull => ['n', 'o', 't', ' ', 'n', 'u', 'l', 'l']
   | .note t => 'n' :: 'o' :: 't' :: 'e' :: ':' :: ' ' :: '\'' :: (prepareTextForDbml t ++ ['\''])
   | .prop k v => k ++ ':' :: ' ' :: '\'' :: (prepareTextForDbml v ++ ['\''])
+  | .defInt d => 'd' :: 'e' :: 'f' :: 'a' :: 'u' :: 'l' :: 't' :: ':' :: ' ' :: d
 
 /-- the words a setting may begin with: a property key beginning with one of them is read as that setting
     (KF-C01-prop-key-kw-prefix) -/
@@ -27,10 +28,15 @@ def settingWords : List String :=
 def KeyOK (k : Str) : Prop :=
   k ≠ [] ∧ k.all isNameChar = true ∧ ∀ kw ∈ settingWords, ∀ r, startsWithCaseless (k ++ r) kw.toList = false
 
+/-- an integer default the round trip covers: decimal digits, no leading zero (so not `0`, which `if model.default:`
+    takes for "no default" - FalsyDefault), at most 4300 of them (KF-C08-huge-int) -/
+def DigitsOK (d : Str) : Prop := d ≠ [] ∧ d.all isDigit = true ∧ d.head? ≠ some '0' ∧ d.length ≤ 4300
+
 /-- what a settings item must satisfy: a note is one plain line without a triple quote -/
 def Flag.ok (props : Bool) : Flag → Prop
   | .note t => Plain t ∧ hasTriple t = false
   | .prop k v => props = true ∧ KeyOK k ∧ Plain v ∧ hasTriple v = false
+  | .defInt d => DigitsOK d
   | _ => True
 
 def Flag.setting : Flag → ColSetting
@@ -40,6 +46,7 @@ def Flag.setting : Flag → ColSetting
   | .notNull => .notNull true
   | .note t => .note t
   | .prop k v => .prop k v
+  | .defInt d => .default (.int d)
 
 theorem swc_ne2 (x y : Char) (r : Str) (s : String) (k1 k2 : Char) (ks : Str) (hs : s.toList = k1 :: k2 :: ks)
     (h : (pyUpper1 k2 == pyUpper1 y) = false) : startsWithCaseless (x :: y :: r) s.toList = false := by
@@ -148,6 +155,99 @@ theorem columnSetting_flag (c : Cur) (w : Flag) (x : Char) (rest : Str) (hn : (s
       clit_fail "increment" c _ _ hN (swc_ne 'n' _ "increment" 'i' _ rfl (by decide)),
       hnote, after c2 hr2, pure, ppure, Flag.setting]
   | prop k v => exact absurd rfl (hnp k v)
+  | defInt d =>
+    obtain ⟨hne, hall, hhead, hlen⟩ := hw
+    obtain ⟨d0, ds, rfl⟩ : ∃ d0 ds, d = d0 :: ds := by
+      cases d with
+      | nil => exact absurd rfl hne
+      | cons a as => exact ⟨a, as, rfl⟩
+    have hd0 : isDigit d0 = true := by simp only [List.all_cons, Bool.and_eq_true] at hall; exact hall.1
+    have hd0n : isNameChar d0 = true := by simp [isNameChar, isAlnum, hd0]
+    have hn' : (skipWs c).rest = ['d', 'e', 'f', 'a', 'u', 'l', 't', ':'] ++ ' ' :: ((d0 :: ds) ++ x :: rest) := by
+      rw [hn]; simp [Flag.text]
+    have hN : Next c 'd' ('e' :: 'f' :: 'a' :: 'u' :: 'l' :: 't' :: ':' :: ' ' :: ((d0 :: ds) ++ x :: rest)) := hn'
+    obtain ⟨q1, q2⟩ := quiet_of_next c 'd' _ hN (by decide) (by decide)
+    have hs0 := skipNl_stay c q1 q2
+    obtain ⟨c1, hk, hr1, hp1⟩ := clit_ok "default:" c ['d', 'e', 'f', 'a', 'u', 'l', 't', ':'] _ hn' (by decide)
+      (by simp [startsWithCaseless] <;> decide) hp
+    have hN1 : Next c1 d0 (ds ++ x :: rest) :=
+      skipWs_rest_spaces c1 1 d0 _ (by rw [hr1]; rfl) (nameChar_facts d0 hd0n).1
+    obtain ⟨q3, q4⟩ := quiet_of_next c1 d0 _ hN1 (nameChar_facts d0 hd0n).2.1 (nameChar_facts d0 hd0n).2.2
+    have hs1 := skipNl_stay c1 q3 q4
+    have hd0q : d0 ≠ '\'' ∧ d0 ≠ '"' ∧ d0 ≠ '`' := by
+      refine ⟨?_, ?_, ?_⟩ <;> (rintro rfl; simp [isDigit] at hd0)
+    have hp1' : (skipWs c1).pastEnd = false := by simpa using hp1
+    have hsl : stringLiteral c1 = .fail := by
+      unfold stringLiteral
+      simp only [hp1', Bool.false_eq_true, ↓reduceIte, show (skipWs c1).rest = d0 :: (ds ++ x :: rest) from hN1]
+      split
+      · rename_i heq; simp at heq; exact absurd heq.1 hd0q.1
+      · rename_i heq; simp at heq; exact absurd heq.1 hd0q.2.1
+      · rfl
+    have hel : expressionLiteral c1 = .fail := by
+      unfold expressionLiteral
+      simp only [hp1', Bool.false_eq_true, ↓reduceIte, show (skipWs c1).rest = d0 :: (ds ++ x :: rest) from hN1]
+      split
+      · rename_i heq; simp at heq; exact absurd heq.1 hd0q.2.2
+      · rfl
+    have hupper : ∀ k : Char, k ∈ ['t', 'f', 'N'] → (pyUpper1 k == pyUpper1 d0) = false := by
+      intro k hk
+      have hd : d0.toNat - 48 < 10 ∧ 48 ≤ d0.toNat := by
+        simp only [isDigit, Bool.and_eq_true, decide_eq_true_eq] at hd0
+        have h1 : ('0' : Char).toNat ≤ d0.toNat := hd0.1
+        have h2 : d0.toNat ≤ ('9' : Char).toNat := hd0.2
+        simp at h1 h2; omega
+      have e : d0 = Char.ofNat d0.toNat := (Char.ofNat_toNat d0).symm
+      have : d0.toNat ∈ [48, 49, 50, 51, 52, 53, 54, 55, 56, 57] := by
+        simp only [List.mem_cons, List.mem_nil_iff, or_false]; omega
+      simp only [List.mem_cons, List.mem_nil_iff, or_false] at this hk
+      rcases this with h' | h' | h' | h' | h' | h' | h' | h' | h' | h' <;>
+        (rw [h'] at e; subst e; rcases hk with rfl | rfl | rfl <;> decide)
+    have hbl : booleanLiteral c1 = .fail := by
+      unfold booleanLiteral alt
+      simp only [bind, pbind,
+        clit_fail "true" c1 _ _ hN1 (swc_ne d0 _ "true" 't' _ rfl (hupper 't' (by simp))),
+        clit_fail "false" c1 _ _ hN1 (swc_ne d0 _ "false" 'f' _ rfl (hupper 'f' (by simp))),
+        clit_fail "NULL" c1 _ _ hN1 (swc_ne d0 _ "NULL" 'N' _ rfl (hupper 'N' (by simp)))]
+    have hxd : isDigit x = false := by rcases hx with rfl | rfl <;> decide
+    have htw : ((d0 :: ds) ++ x :: rest).takeWhile isDigit = d0 :: ds :=
+      takeWhile_append_stop isDigit (d0 :: ds) (x :: rest) hall (by intro y hy; simp at hy; subst hy; exact hxd)
+    have hnum : numberLiteral c1 = .ok (d0 :: ds) (advance (skipWs c1) (d0 :: ds).length) := by
+      unfold numberLiteral
+      simp only [hp1', Bool.false_eq_true, ↓reduceIte, show (skipWs c1).rest = (d0 :: ds) ++ x :: rest from hN1, htw]
+      simp only [List.isEmpty_cons, Bool.false_eq_true, ↓reduceIte, List.drop_left']
+      rcases hx with rfl | rfl <;> rfl
+    have hnv : numberValue (d0 :: ds) = ppure (Bp.DefaultBp.int (d0 :: ds)) := by
+      unfold numberValue
+      have hnodot : (d0 :: ds).contains '.' = false := by
+        rw [List.contains_eq_mem, decide_eq_false_iff_not]
+        intro hm
+        have := List.all_eq_true.mp hall '.' hm
+        simp [isDigit] at this
+      simp only [hnodot, Bool.false_eq_true, ↓reduceIte]
+      have : ¬ (d0 :: ds).length > 4300 := by omega
+      simp only [this, ↓reduceIte]
+    have hr2 : (advance (skipWs c1) (d0 :: ds).length).rest = x :: rest := by
+      rw [C13.advance_rest, show (skipWs c1).rest = (d0 :: ds) ++ x :: rest from hN1]; simp
+    have hp2 : (advance (skipWs c1) (d0 :: ds).length).pastEnd = false := by
+      rw [C13.advance_pastEnd]; exact hp1'
+    have hdef : defaultRule c = .ok (Bp.DefaultBp.int (d0 :: ds)) (advance (skipWs c1) (d0 :: ds).length) := by
+      unfold defaultRule
+      simp only [bind, pbind, hk, cut, hs1, alt, hsl, hel, hbl, hnum, hnv, ppure]
+    refine ⟨_, ?_, hr2, hp2⟩
+    unfold columnSetting
+    simp only [bind, pbind, hs0, alt,
+      clit_fail "not null" c _ _ hN (swc_ne 'd' _ "not null" 'n' _ rfl (by decide)),
+      clit_fail "null" c _ _ hN (swc_ne 'd' _ "null" 'n' _ rfl (by decide)),
+      clit_fail "primary key" c _ _ hN (swc_ne 'd' _ "primary key" 'p' _ rfl (by decide)),
+      clit_fail "pk" c _ _ hN (swc_ne 'd' _ "pk" 'p' _ rfl (by decide)),
+      clit_fail "unique" c _ _ hN (swc_ne 'd' _ "unique" 'u' _ rfl (by decide)),
+      clit_fail "increment" c _ _ hN (swc_ne 'd' _ "increment" 'i' _ rfl (by decide)),
+      show noteRule c = .fail by
+        unfold noteRule; simp only [bind, pbind, clit_fail "note:" c _ _ hN (swc_ne 'd' _ "note:" 'n' _ rfl (by decide))],
+      show refInline c = .fail by
+        unfold refInline; simp only [bind, pbind, clit_fail "ref:" c _ _ hN (swc_ne 'd' _ "ref:" 'r' _ rfl (by decide))],
+      hdef, after _ hr2, pure, ppure, Flag.setting]
 
 theorem oneLine_of_plain (t : Str) (ht : Plain t) : C13.oneLine t = true := by
   simp only [C13.oneLine, Bool.not_eq_true', List.any_eq_false, Bool.or_eq_true, decide_eq_true_eq, not_or]
@@ -228,6 +328,7 @@ theorem item_ok (props : Bool) (c : Cur) (w : Flag) (x : Char) (rest : Str)
   | unique => exact key (by intro k v h; cases h)
   | notNull => exact key (by intro k v h; cases h)
   | note t => exact key (by intro k v h; cases h)
+  | defInt d => exact key (by intro k v h; cases h)
 
 /-! ### the settings list: `[w1, w2, …]` -/
 
@@ -252,6 +353,7 @@ theorem flag_text_head (props : Bool) (w : Flag) (hw : w.ok props) :
   | unique => exact ⟨'u', _, rfl, by decide, by decide, by decide⟩
   | notNull => exact ⟨'n', _, rfl, by decide, by decide, by decide⟩
   | note t => exact ⟨'n', _, rfl, by decide, by decide, by decide⟩
+  | defInt d => exact ⟨'d', _, rfl, by decide, by decide, by decide⟩
 
 theorem many_flags (props : Bool) (ws : List Flag) (post : Str) (hws : ∀ w ∈ ws, w.ok props) :
     ∀ (fuel : Nat) (c : Cur), ws.length < fuel → c.rest = moreFlags ws ++ ']' :: post → c.pastEnd = false →
@@ -455,10 +557,13 @@ structure FCol where
   note : Str := []
   /-- arbitrary properties, in order -/
   props : List (Str × Str) := []
+  /-- an integer default, as decimal digits; empty means: no default -/
+  dflt : Str := []
 
 /-- the ordinary settings in the order the renderer writes them -/
 def FCol.base (s : FCol) : List Flag :=
   (if s.pk then [Flag.pk] else []) ++ (if s.increment then [Flag.increment] else [])
+    ++ (if s.dflt.isEmpty then [] else [Flag.defInt s.dflt])
     ++ (if s.unique then [Flag.unique] else []) ++ (if s.notNull then [Flag.notNull] else [])
     ++ (if s.note.isEmpty then [] else [Flag.note s.note])
 
@@ -472,11 +577,12 @@ def FCol.str (s : FCol) : Str := '"' :: (s.name ++ '"' :: ' ' :: (s.type ++ flag
 def FCol.bp (s : FCol) : Bp.ColBp :=
   { name := s.name, type := s.type, unique := s.unique, notNull := s.notNull, pk := s.pk, autoinc := s.increment,
     note := if s.note.isEmpty then none else some s.note,
-    props := if s.props.isEmpty then none else some s.props }
+    props := if s.props.isEmpty then none else some s.props,
+    default := if s.dflt.isEmpty then none else some (.int s.dflt) }
 
 def FCol.col (s : FCol) : Column :=
   { name := s.name, type := .plain s.type, unique := s.unique, notNull := s.notNull, pk := s.pk, autoinc := s.increment,
-    note := s.note, props := s.props }
+    note := s.note, props := s.props, default := if s.dflt.isEmpty then none else some (.int s.dflt) }
 
 /-- a quoted name, a one-word type, a note that is one plain normalised line without a triple quote; properties
     only with the switch on, their keys pairwise different bare identifiers that are not read as settings, their
@@ -491,13 +597,21 @@ structure FCol.ok (ap : Bool) (s : FCol) : Prop where
   keys : ∀ kv ∈ s.props, KeyOK kv.1
   values : ∀ kv ∈ s.props, Plain kv.2 ∧ hasTriple kv.2 = false
   distinct : s.props.Pairwise (fun a b => a.1 ≠ b.1)
+  digits : s.dflt = [] ∨ DigitsOK s.dflt
 
 theorem FCol.flags_ok (ap : Bool) (s : FCol) (hok : s.ok ap) : ∀ w ∈ s.flags, w.ok ap := by
   intro w hw
   simp only [FCol.flags, FCol.base, propFlags, List.mem_append, List.mem_map] at hw
-  rcases hw with ((((h | h) | h) | h) | h) | ⟨kv, hkv, rfl⟩
+  rcases hw with (((((h | h) | h) | h) | h) | h) | ⟨kv, hkv, rfl⟩
   · split at h <;> simp at h; subst h; trivial
   · split at h <;> simp at h; subst h; trivial
+  · split at h
+    · simp at h
+    · rename_i hne
+      simp at h; subst h
+      rcases hok.digits with hd | hd
+      · rw [hd] at hne; simp at hne
+      · exact hd
   · split at h <;> simp at h; subst h; trivial
   · split at h <;> simp at h; subst h; trivial
   · split at h <;> simp at h; subst h; exact ⟨hok.notePlain, hok.noteTriple⟩
@@ -588,23 +702,23 @@ theorem FCol.base_no_prop (s : FCol) : ∀ x ∈ s.base.map Flag.setting, ∀ k 
   simp only [List.mem_map] at hx
   obtain ⟨w, hw, rfl⟩ := hx
   simp only [FCol.base, List.mem_append] at hw
-  rcases hw with (((h' | h') | h') | h') | h' <;> (split at h' <;> simp at h'; subst h'; simp [Flag.setting] at h)
+  rcases hw with ((((h' | h') | h') | h') | h') | h' <;> (split at h' <;> simp at h'; subst h'; simp [Flag.setting] at h)
 
 theorem FCol.settings_bp (s : FCol) (w : Flag) (ws : List Flag) (h : s.flags = w :: ws)
     (hd : s.props.Pairwise (fun a b => a.1 ≠ b.1)) :
     colOfSettings s.name s.type (foldColSettings ((w :: ws).map Flag.setting) none) = s.bp := by
   rw [← h, map_setting_flags, fold_append_props _ _ (FCol.base_no_prop s)]
-  obtain ⟨n, t, a, b, c, d, e, ps⟩ := s
+  obtain ⟨n, t, a, b, c, d, e, ps, dd⟩ := s
   have hdict := dictOf_distinct ps hd
-  cases e <;> cases a <;> cases b <;> cases c <;> cases d <;>
+  cases dd <;> cases e <;> cases a <;> cases b <;> cases c <;> cases d <;>
     (simp only [colOfSettings, FCol.bp, hdict]; rfl)
 
 theorem FCol.plain_bp (s : FCol) (h : s.flags = []) : plainCol s.name s.type = s.bp := by
-  obtain ⟨n, t, a, b, c, d, e, ps⟩ := s
+  obtain ⟨n, t, a, b, c, d, e, ps, dd⟩ := s
   cases ps with
   | cons p r => exfalso; simp [FCol.flags, propFlags] at h
   | nil =>
-    cases e <;> cases a <;> cases b <;> cases c <;> cases d <;>
+    cases dd <;> cases e <;> cases a <;> cases b <;> cases c <;> cases d <;>
       first | rfl | (exfalso; simp [FCol.flags, FCol.base, propFlags] at h)
 
 /-! #### the rendered line -/
@@ -650,6 +764,24 @@ theorem flag_text_line (ap : Bool) (w : Flag) (hw : w.ok ap) : LineOK w.text ∧
       · exact (by decide : ∀ c ∈ [':', ' '], isLineBreak c = false ∧ c ≠ '\t') c h
     have := quoted (k ++ [':', ' ']) v hv hk
     simpa [Flag.text] using this
+  | defInt d =>
+    obtain ⟨_, hall, _, _⟩ := hw
+    have e : (Flag.defInt d).text = ['d', 'e', 'f', 'a', 'u', 'l', 't', ':', ' '] ++ d := by simp [Flag.text]
+    have hd : ∀ c ∈ d, isNameChar c = true := by
+      intro c hc
+      have := List.all_eq_true.mp hall c hc
+      simp [isNameChar, isAlnum, this]
+    constructor
+    · intro c hc
+      rw [e] at hc
+      rcases List.mem_append.mp hc with h | h
+      · exact (by decide : ∀ c ∈ ['d', 'e', 'f', 'a', 'u', 'l', 't', ':', ' '], isLineBreak c = false) c h
+      · exact nameChar_not_lineBreak c (hd c h)
+    · intro c hc
+      rw [e] at hc
+      rcases List.mem_append.mp hc with h | h
+      · exact (by decide : ∀ c ∈ ['d', 'e', 'f', 'a', 'u', 'l', 't', ':', ' '], c ≠ '\t') c h
+      · exact nameChar_not_tab c (hd c h)
   | pk => exact ⟨by intro c hc; revert c; decide, by intro c hc; revert c; decide⟩
   | increment => exact ⟨by intro c hc; revert c; decide, by intro c hc; revert c; decide⟩
   | unique => exact ⟨by intro c hc; revert c; decide, by intro c hc; revert c; decide⟩
@@ -734,10 +866,27 @@ theorem flagsText_eq (ws : List Flag) :
     simp only [List.map_cons] at this
     simp [flagsText, lit, this]
 
+theorem stripLeadingZeros_digits (d : Str) (h : DigitsOK d) : stripLeadingZeros d = d := by
+  obtain ⟨hne, _, hhead, _⟩ := h
+  cases d with
+  | nil => exact absurd rfl hne
+  | cons x xs =>
+    have hx : x ≠ '0' := by intro e; subst e; simp at hhead
+    simp [stripLeadingZeros, List.dropWhile, hx]
+
+theorem truthy_digits (d : Str) (h : DigitsOK d) : (DefaultVal.int d).truthy = true := by
+  obtain ⟨hne, _, hhead, _⟩ := h
+  cases d with
+  | nil => exact absurd rfl hne
+  | cons x xs =>
+    have hx : x ≠ '0' := by intro e; subst e; simp at hhead
+    simp [DefaultVal.truthy, hx]
+
 theorem FCol.render (ap : Bool) (ts : List Table) (refs : List Ref) (ti ci : Nat) (s : FCol) (hok : s.ok ap)
     (hni : ∀ r ∈ refs, r.inline = false) :
     Dbml.renderColumn { tables := ts, refs := refs, allowProps := ap } ti ci s.col = .ok s.str := by
   have hnl := containsChar_plain s.note hok.notePlain
+  have hdig := hok.digits
   have hprops : (if ap then s.props.map (fun (kv : Str × Str) => kv.1 ++ lit ": " ++ quoteString kv.2) else [])
       = (propFlags s.props).map Flag.text := by
     rcases hok.propsOn with h | h
@@ -764,9 +913,15 @@ theorem FCol.render (ap : Bool) (ts : List Table) (refs : List Ref) (ti ci : Nat
     rw [e]
     simp only [FCol.flags, List.map_append]
     congr 1
-    obtain ⟨n, t, a, b, c, d, e', ps⟩ := s
-    cases e' <;> cases a <;> cases b <;> cases c <;> cases d <;>
-      simp [FCol.col, FCol.base, Flag.text, lit, noteOptionToDbml] <;> simp [hnl] at *
+    obtain ⟨n, t, a, b, c, d, e', ps, dd⟩ := s
+    cases dd with
+    | nil =>
+      cases e' <;> cases a <;> cases b <;> cases c <;> cases d <;>
+        simp [FCol.col, FCol.base, Flag.text, lit, noteOptionToDbml] <;> simp [hnl] at *
+    | cons x0 xs0 =>
+      have ht := truthy_digits (x0 :: xs0) (by simpa using hdig)
+      cases e' <;> cases a <;> cases b <;> cases c <;> cases d <;>
+        simp [FCol.col, FCol.base, Flag.text, lit, noteOptionToDbml, ht, Dbml.defaultToStr] <;> simp [hnl] at *
   have fin : ∀ opts : List Str, opts = s.flags.map Flag.text →
       (Except.ok (Dbml.optComment s.col.comment ++ '"' :: s.col.name ++ lit "\" " ++ s.type ++
         (if opts.isEmpty then [] else lit " [" ++ joinWith (lit ", ") opts ++ [']'])) : R Str) = .ok s.str := by
@@ -829,15 +984,23 @@ def flagForm : ColForm FCol where
   build := by
     intro ap s hok
     have hn := hok.noteNorm
-    obtain ⟨n, t, a, b, c, d, e, ps⟩ := s
-    cases ps <;> cases e <;>
-      simp_all [buildColumn, buildDefault, resolveType, resolveTypePure, buildNote, FCol.bp, FCol.col,
-        bind, Except.bind, pure, Except.pure]
+    have hdig := hok.digits
+    obtain ⟨n, t, a, b, c, d, e, ps, dd⟩ := s
+    cases dd with
+    | nil =>
+      cases ps <;> cases e <;>
+        simp_all [buildColumn, buildDefault, resolveType, resolveTypePure, buildNote, FCol.bp, FCol.col,
+          bind, Except.bind, pure, Except.pure]
+    | cons x0 xs0 =>
+      have hs := stripLeadingZeros_digits (x0 :: xs0) (by simpa using hdig)
+      cases ps <;> cases e <;>
+        simp_all [buildColumn, buildDefault, resolveType, resolveTypePure, buildNote, FCol.bp, FCol.col,
+          bind, Except.bind, pure, Except.pure]
   render := fun ap ts refs ti ci s hok hni => FCol.render ap ts refs ti ci s hok hni
 
 /-- **C02 (and C15) for a table whose columns carry settings, end to end**: a database holding one table in schema
     public with any positive number of columns, each with a quoted name, a one-word type, ANY SUBSET of the settings
-    `pk`, `increment`, `unique`, `not null`, possibly a one-line note and - when the properties switch is on - any
+    `pk`, `increment`, `unique`, `not null`, possibly an integer default, a one-line note and - when the properties switch is on - any
     number of arbitrary properties `key: 'value'` (keys and values exact, order kept), is rendered to DBML and parsed
     back to exactly the same database.  The settings travel through `column_settings` (switch off) or
     `column_settings_with_properties` (switch on), `parse_column_settings`, `ColumnBlueprint.build` (where the note
@@ -862,18 +1025,18 @@ theorem keyOK_of_first (x : Char) (xs : Str) (hall : (x :: xs).all isNameChar = 
       Ne.symm hx.2.2.2.2.2]
 
 /-- non-vacuity: a primary key with auto-increment, a unique not-null column with a note and two properties
-    (switch on), a bare column -/
+    (switch on), a column with an integer default -/
 example : ∀ s ∈ [({ name := lit "id", type := lit "int", pk := true, increment := true } : FCol),
       { name := lit "e mail", type := lit "varchar", unique := true, notNull := true, note := lit "it's the login",
         props := [(lit "color", lit "red"), (lit "weight", lit "1 kg")] },
-      { name := lit "age", type := lit "int" }], s.ok true := by
+      { name := lit "age", type := lit "int", dflt := lit "18" }], s.ok true := by
   intro s hs
   simp at hs
   rcases hs with rfl | rfl | rfl
   · exact ⟨fun c hc => by revert c; decide, ⟨by decide, by decide⟩, fun c hc => by revert c; decide, by decide, by decide,
-      Or.inl rfl, (by intro kv h; cases h), (by intro kv h; cases h), by simp⟩
+      Or.inl rfl, (by intro kv h; cases h), (by intro kv h; cases h), by simp, Or.inl rfl⟩
   · refine ⟨fun c hc => by revert c; decide, ⟨by decide, by decide⟩, fun c hc => by revert c; decide, by decide, by decide,
-      Or.inr rfl, ?_, ?_, by decide⟩
+      Or.inr rfl, ?_, ?_, by decide, Or.inl rfl⟩
     · intro kv h
       simp at h
       rcases h with rfl | rfl
@@ -883,13 +1046,13 @@ example : ∀ s ∈ [({ name := lit "id", type := lit "int", pk := true, increme
       simp at h
       rcases h with rfl | rfl <;> exact ⟨fun c hc => by revert c; decide, by decide⟩
   · exact ⟨fun c hc => by revert c; decide, ⟨by decide, by decide⟩, fun c hc => by revert c; decide, by decide, by decide,
-      Or.inl rfl, (by intro kv h; cases h), (by intro kv h; cases h), by simp⟩
+      Or.inl rfl, (by intro kv h; cases h), (by intro kv h; cases h), by simp, Or.inr ⟨by decide, by decide, by decide, by decide⟩⟩
 
 /-- the text of such a table, as the renderer model writes it (a test of the statement on one literal) -/
-example : flagForm.tableText (lit "t") [{ name := lit "id", type := lit "int", pk := true, increment := true },
+example : flagForm.tableText (lit "t") [{ name := lit "id", type := lit "int", pk := true, increment := true, dflt := lit "7" },
       { name := lit "m", type := lit "text", unique := true, notNull := true, note := lit "it's",
         props := [(lit "color", lit "red")] }]
-    = lit "Table \"t\" {\n    \"id\" int [pk, increment]\n    \"m\" text [unique, not null, note: 'it\\'s', color: 'red']\n}" := by
+    = lit "Table \"t\" {\n    \"id\" int [pk, increment, default: 7]\n    \"m\" text [unique, not null, note: 'it\\'s', color: 'red']\n}" := by
   decide
 
 end C02
